@@ -250,6 +250,17 @@ def machine(tier, col):  # pylint: disable=unused-argument
             if cur:
                 self.do(["api", "deleteExcludeRegion", {"id": cur[pick % len(cur)]["id"]}, anon == 0])
 
+        @rule(pick=st.integers(0, 99), what=st.sampled_from(["update", "update", "delete", "add"]), data=region_data(False), anon=st.integers(0, 7))
+        def former_id(self, pick, what, data, anon):
+            """A client that kept the id of a region it once drew (it may be long gone: deleted, or cleared with a new file)."""
+            seen = [op[2]["id"] for op in self.case["ops"] if op[0] == "api" and isinstance(op[2], dict) and "id" in op[2]]
+            if not seen:
+                return
+            data = dict(data, id=seen[pick % len(seen)])
+            if what == "delete":
+                data = {"id": data["id"]}
+            self.do(["api", {"update": "updateExcludeRegion", "delete": "deleteExcludeRegion", "add": "addExcludeRegion"}[what], data, anon == 0])
+
         @rule(i=ids, anon=st.integers(0, 7))
         def delete_any(self, i, anon):
             self.do(["api", "deleteExcludeRegion", {"id": i}, anon == 0])
